@@ -181,7 +181,7 @@ def _rich(fields):
 
 
 def _dtype_labels(fields):
-    labs = ["nfields:%s" % (len(fields) if len(fields) < 4 else "4+")]
+    labs = ["nfields:%s" % (len(fields) if len(fields) < 4 else "4-8" if len(fields) <= 8 else "9+")]
     if sa.has_subarray(fields):
         labs.append("subarray-field")
     if sa.has_nonnative(fields):
@@ -309,7 +309,9 @@ def classify_remove(case):
 
 @st.composite
 def reorder_cases(draw):
-    fields = draw(tables())
+    # one case in four is a wide table (9-12 fields): code may treat many-field records differently (round 10)
+    wide = draw(st.sampled_from([False, False, False, True]))
+    fields = draw(tables(min_fields=9, max_fields=12)) if wide else draw(tables())
     names = _names(fields)
     mode = draw(st.sampled_from(["ok", "ok", "ok", "unknown"]))
     sel = draw(selections(names, unknown=(mode == "unknown")))
